@@ -8,6 +8,8 @@ mkdir -p out replays evidence
 (cd harness && cargo build --offline 2>&1 | tail -3)
 harness/target/debug/vh consts > out/Consts.lean.new && {
   cmp -s out/Consts.lean.new lean/VirtioVerif/Generated/Consts.lean || cp out/Consts.lean.new lean/VirtioVerif/Generated/Consts.lean; }
+harness/target/debug/vh features > out/Features.lean.new && {
+  cmp -s out/Features.lean.new lean/VirtioVerif/Generated/Features.lean || cp out/Features.lean.new lean/VirtioVerif/Generated/Features.lean; }
 python3 tools/extract.py /repo lean/VirtioVerif/Generated
 python3 tools/extract_publish.py /repo lean/VirtioVerif/Generated
 (cd lean && lake build 2>&1 | tail -3)
